@@ -2,3 +2,4 @@ pub mod arrival;
 pub mod cost;
 pub mod supply;
 pub mod rta;
+pub mod systems;
